@@ -46,8 +46,10 @@ def c03_struct(tier="quick", seed=0):
             if isinstance(m, ast.FunctionDef):
                 value_methods.setdefault(m.name, []).append((cls.name, m))
     conversions = {"int", "float", "to_string", "str", "isinstance", "len", "_is_array_index", "JSTypeError", "JSRangeError"}
-    tables = {"_make_array_method", "_make_string_method", "_make_number_method", "_make_typed_array_method", "_make_regexp_method",
-              "_make_function_method", "_make_callable_method", "_make_object_method", "_function_has_own"}
+    # (every VM._make_*_method factory: each is checked below to select a closure from a literal dict with a constant fallback)
+    vm_cls = [c for c in S.module("microjs.vm").body if isinstance(c, ast.ClassDef) and c.name == "VM"][0]
+    factories = sorted(m.name for m in vm_cls.body if isinstance(m, ast.FunctionDef) and m.name.startswith("_make_") and m.name.endswith("_method"))
+    tables = set(factories) | {"_function_has_own"}
     for fname in ("VM._get_property", "VM._set_property", "VM._delete_property"):
         f = S.fn("microjs.vm", fname)
         bad = []
@@ -76,8 +78,7 @@ def c03_struct(tier="quick", seed=0):
     out.append(ob("C03.struct.key-flow.value-classes", not bad and nchecked > 0, "K3",
                   f"{nchecked} methods of microjs.values take a key; it reaches: {bad or 'dictionary operations, comparisons and conversions only'}"))
     # the _make_*_method factories select closures from a literal dict with a constant fallback
-    for fac in ("_make_array_method", "_make_string_method", "_make_number_method", "_make_typed_array_method", "_make_regexp_method",
-                "_make_function_method", "_make_callable_method", "_make_object_method"):
+    for fac in factories:
         f = S.fn("microjs.vm", "VM." + fac)
         last = f.body[-1]
         # ... possibly handed through VM._for_receiver(<that closure>, <the same factory>, ...), which only attaches the way to
